@@ -313,7 +313,7 @@ def chk_fov(ctx, shape, size, p, t, phi):
     w = {"kind": "fov", "shape": shape, "size": _lst(size), "p": _lst(p), "t": _lst(t), "phi": float(phi)}
     fov = _fov(shape, size)
     rp, rt = g.rotate_about_vertical(p, phi), g.rotate_about_vertical(t, phi)
-    sz = "/".join(f"{math.degrees(x):.4g}" for x in size)
+    sz = "/".join(f"{math.degrees(x):.6g}" for x in size)
 
     def run(a, b):
         res, err = _call(fov.inFieldOfView, a, b)
@@ -324,8 +324,10 @@ def chk_fov(ctx, shape, size, p, t, phi):
 
     for v, nm in ((p, "boresight"), (t, "target"), (rp, "rotated boresight")):
         r = run(v, v)
-        if r is not None:
-            ctx.check(r, f"fov-{shape}-reflexive", f"{shape} FoV {sz} deg does not contain its own {nm} direction {_lst(v[:3])}", w, mon="fov_reflexive")
+        if r:
+            ctx.mon("fov_reflexive")
+        elif r is not None:
+            ctx.check(False, f"fov-{shape}-reflexive", f"{shape} FoV {sz} deg does not contain its own {nm} direction {_lst(v[:3])}", w, mon="fov_reflexive")
     a0, a1 = run(p, t), run(rp, rt)
     e0, s0 = _fov_ref(shape, size, p, t)
     e1, s1 = _fov_ref(shape, size, rp, rt)
@@ -334,18 +336,28 @@ def chk_fov(ctx, shape, size, p, t, phi):
         if a is None or e is None:
             continue
         nontrivial = True
+        if a == e:          # messages are built only on failure (hot path)
+            ctx.mon("fov_definition")
+            continue
         key = f"fov-{shape}-definition"
         if shape == "rect" and s and e and not a:
-            key = SEAM_KEY
-        ctx.check(a == e, key, f"{shape} FoV {sz} deg: inFieldOfView={a} but the angular offset says {e} ({nm} pair; boresight az/el "
+            # boresight and target lie on opposite sides of north and a target inside the field was rejected.  Differential
+            # probe: the same pair turned by 180 deg about the vertical straddles south instead; if that one is accepted the
+            # failure is specific to the az 0/360 seam (unwrapped azimuth difference), otherwise it is a plain definition failure.
+            if run(g.rotate_about_vertical(pp, math.pi), g.rotate_about_vertical(tt, math.pi)) is True:
+                key = SEAM_KEY
+        ctx.check(False, key, f"{shape} FoV {sz} deg: inFieldOfView={a} but the angular offset says {e} ({nm} pair; boresight az/el "
                   f"{_azel_txt(pp)}, target {_azel_txt(tt)})", w, mon="fov_definition")
-    if None not in (a0, a1, e0, e1) and e0 == e1:
-        key = f"fov-{shape}-rotation"
-        if shape == "rect" and s0 != s1 and ((s0 and not a0 and a1) or (s1 and not a1 and a0)):
-            key = SEAM_KEY
-        ctx.check(a0 == a1, key, f"{shape} FoV {sz} deg: membership changed from {a0} to {a1} when boresight and target were both rotated by "
-                  f"{math.degrees(phi):.9g} deg about the vertical (boresight az/el {_azel_txt(p)} -> {_azel_txt(rp)}, target {_azel_txt(t)} -> {_azel_txt(rt)})",
-                  w, mon="fov_rotation")
+    if a0 is not None and a1 is not None and e0 is not None and e1 is not None and e0 == e1:
+        if a0 == a1:
+            ctx.mon("fov_rotation")
+        else:
+            key = f"fov-{shape}-rotation"
+            if shape == "rect" and s0 != s1 and ((s0 and not a0 and a1) or (s1 and not a1 and a0)):
+                key = SEAM_KEY
+            ctx.check(False, key, f"{shape} FoV {sz} deg: membership changed from {a0} to {a1} when boresight and target were both rotated by "
+                      f"{math.degrees(phi):.9g} deg about the vertical (boresight az/el {_azel_txt(p)} -> {_azel_txt(rp)}, target {_azel_txt(t)} -> {_azel_txt(rt)})",
+                      w, mon="fov_rotation")
     return nontrivial
 
 
